@@ -3,6 +3,7 @@ import GeomV.C09.Tables
 import GeomV.C09.Gen.Tables
 import GeomV.C09.Gen.GoCommon
 import GeomV.C09.Gen.GoProj
+import GeomV.C09.Gen.GoParse
 /-!
 Model of the Go port (`/repo/proj`), function by function, generic over the number class.
 
@@ -14,7 +15,11 @@ Model of the Go port (`/repo/proj`), function by function, generic over the numb
   `Krovak`, `aeaPhi1z`, and `geodetic_to_geocentric`, `geocentric_to_wgs84`,
   `geocentric_from_wgs84` of `datum.go` are `Gen.Go.*` as well (`Gen/GoProj.lean`, regenerated);
   the functions below only pass them what the closure reads from `*SR` and from its constructor.
-* Hand models (tied by the correspondence run): `projString.go`, `deriveConstants.go`, `getDatum`,
+* `projString.go`: the simple cases of `switch paramName` and the arithmetic of `DeriveConstants` are
+  `Gen.Go.projString_num/_str/_flag` and `Gen.Go.DeriveConstants_core1` (`Gen/GoParse.lean`, regenerated);
+  the five special cases, the loop frame and the table lookups of `DeriveConstants` are hand models whose
+  source text is pinned (`ProofsParse`).
+* Hand models (tied by the correspondence run): `getDatum`,
   `compare_datums`, `geocentric_to_geodetic` (its `for {}` loop), `datum_transform.go`, the closure of
   `transform.go`, and the inverse closures of `TMerc` and `Krovak` (loops with an integer counter are
   outside the translator's subset).
@@ -110,46 +115,60 @@ def parseFloat (v : String) : Except String α :=
 def legalAxis (v : String) : Bool :=
   v.length == 3 && v.toList.all (fun c => "ewnsud".toList.contains c)
 
-def applyParam (self : SR α) (a : String) : Except String (SR α) := do
-  let a := trimStr a
-  let sp := a.splitOn "="
-  let paramName := (sp.headD "").toLower
-  let paramVal := match sp with | _ :: v :: _ => v | _ => "true"
+/-- `self.F = v` for the float64 field named `F` in Go (`Gen.Go.projString_num` gives the name). `Long1`,
+`Long2`, `Alpha`, `LongC` are written by `projString` and read by none of the modelled projections: not
+carried. A field name this model does not know is an error (the correspondence run then reports DIFF). -/
+def setNum (self : SR α) (fld : String) (v : α) : Except String (SR α) :=
+  match fld with
+  | "Rf" => pure { self with rf := some v }
+  | "Lat0" => pure { self with lat0 := some v }
+  | "Lat1" => pure { self with lat1 := some v }
+  | "Lat2" => pure { self with lat2 := some v }
+  | "LatTS" => pure { self with latTS := some v }
+  | "Long0" => pure { self with long0 := some v }
+  | "Long1" => pure self
+  | "Long2" => pure self
+  | "Alpha" => pure self
+  | "LongC" => pure self
+  | "X0" => pure { self with x0 := some v }
+  | "Y0" => pure { self with y0 := some v }
+  | "K0" => pure { self with k0 := some v }
+  | "A" => pure { self with a := some v }
+  | "B" => pure { self with b := some v }
+  | "Zone" => pure { self with zone := some v }
+  | "ToMeter" => pure { self with toMeter := v }
+  | "FromGreenwich" => pure { self with fromGreenwich := some v }
+  | _ => throw ("model: float field " ++ fld ++ " of SR is not modelled")
+
+/-- `self.F = paramVal` for the string field named `F` in Go (`Title` is read by nothing) -/
+def setStr (self : SR α) (fld : String) (v : String) : Except String (SR α) :=
+  match fld with
+  | "Name" => pure { self with name := v }
+  | "Title" => pure self
+  | "DatumCode" => pure { self with datumCode := v }
+  | "Ellps" => pure { self with ellps := v }
+  | _ => throw ("model: string field " ++ fld ++ " of SR is not modelled")
+
+/-- `self.F = true` for the bool field named `F` in Go -/
+def setFlag (self : SR α) (fld : String) : Except String (SR α) :=
+  match fld with
+  | "Ra" => pure { self with ra := true }
+  | "UTMSouth" => pure { self with utmSouth := true }
+  | "NoDefs" => pure { self with noDefs := true }
+  | _ => throw ("model: bool field " ++ fld ++ " of SR is not modelled")
+
+/-- the cases of `switch paramName` that are not of the three simple shapes, written by hand from the
+source text that `Gen.Go.projString_special` carries (pinned: `ProofsParse.projString_special_pinned`) -/
+def applySpecial (self : SR α) (paramName paramVal : String) : Except String (SR α) :=
   let deg2rad : α := c_deg2rad
   match paramName with
-  | "proj" => pure { self with name := paramVal }
-  | "title" => pure self
-  | "datum" => pure { self with datumCode := paramVal }
-  | "rf" => do let v ← parseFloat paramVal; pure { self with rf := some v }
-  | "lat_0" => do let v ← parseFloat (α := α) paramVal; pure { self with lat0 := some (v * deg2rad) }
-  | "lat_1" => do let v ← parseFloat (α := α) paramVal; pure { self with lat1 := some (v * deg2rad) }
-  | "lat_2" => do let v ← parseFloat (α := α) paramVal; pure { self with lat2 := some (v * deg2rad) }
-  | "lat_ts" => do let v ← parseFloat (α := α) paramVal; pure { self with latTS := some (v * deg2rad) }
-  | "lon_0" => do let v ← parseFloat (α := α) paramVal; pure { self with long0 := some (v * deg2rad) }
-  | "lon_1" => do let _ ← parseFloat (α := α) paramVal; pure self
-  | "lon_2" => do let _ ← parseFloat (α := α) paramVal; pure self
-  | "alpha" => do let _ ← parseFloat (α := α) paramVal; pure self
-  | "lonc" => do let _ ← parseFloat (α := α) paramVal; pure self
-  | "x_0" => do let v ← parseFloat paramVal; pure { self with x0 := some v }
-  | "y_0" => do let v ← parseFloat paramVal; pure { self with y0 := some v }
-  | "k_0" => do let v ← parseFloat paramVal; pure { self with k0 := some v }
-  | "k" => do let v ← parseFloat paramVal; pure { self with k0 := some v }
-  | "a" => do let v ← parseFloat paramVal; pure { self with a := some v }
-  | "b" => do let v ← parseFloat paramVal; pure { self with b := some v }
-  | "ellps" => pure { self with ellps := paramVal }
-  | "r_a" => pure { self with ra := true }
-  | "zone" => do let v ← parseFloat paramVal; pure { self with zone := some v }
-  | "south" => pure { self with utmSouth := true }
-  | "no_defs" => pure { self with noDefs := true }
   | "towgs84" => do
     let ps ← (paramVal.splitOn ",").mapM (fun s => parseFloat (α := α) s)
     pure { self with datumParams := ps }
-  | "to_meter" => do let v ← parseFloat paramVal; pure { self with toMeter := v }
   | "units" =>
     match lookupNum Gen.goUnits paramVal with
     | some d => pure { self with units := paramVal, toMeter := d.toNum }
     | none => pure { self with units := paramVal }
-  | "from_greenwich" => do let v ← parseFloat (α := α) paramVal; pure { self with fromGreenwich := some (v * deg2rad) }
   | "pm" =>
     match lookupNum Gen.goPrimeMeridians paramVal with
     | some d => pure { self with fromGreenwich := some ((d.toNum : α) * deg2rad) }
@@ -157,6 +176,27 @@ def applyParam (self : SR α) (a : String) : Except String (SR α) := do
   | "nadgrids" => if paramVal == "@null" then pure { self with datumCode := "none" } else pure { self with nadGrids := paramVal }
   | "axis" => if legalAxis paramVal then pure { self with axis := paramVal } else pure self
   | _ => throw ("proj: invalid field '" ++ paramName ++ "'")
+
+/-- one round of the loop of `projString`: the `switch paramName` is read from the REGENERATED case tables
+`Gen.Go.projString_num/_str/_flag` (key ↦ Go field, degrees or not) -/
+def applyKV (self : SR α) (paramName paramVal : String) : Except String (SR α) :=
+  match projString_num paramName with
+  | some (fld, deg) => do
+    let v ← parseFloat (α := α) paramVal
+    setNum self fld (if deg then v * c_deg2rad else v)
+  | none =>
+    match projString_str paramName with
+    | some fld => setStr self fld paramVal
+    | none =>
+      match projString_flag paramName with
+      | some fld => setFlag self fld
+      | none => applySpecial self paramName paramVal
+
+def paramNameOf (a : String) : String := (((trimStr a).splitOn "=").headD "").toLower
+def paramValOf (a : String) : String := match (trimStr a).splitOn "=" with | _ :: v :: _ => v | _ => "true"
+
+def applyParam (self : SR α) (a : String) : Except String (SR α) :=
+  applyKV self (paramNameOf a) (paramValOf a)
 
 /-- `projString` -/
 def projString (defData : String) : Except String (SR α) := do
@@ -318,23 +358,12 @@ def deriveConstants (json : SR α) : SR α :=
       let json := match decO (α := α) row.b with | some v => if ne v 0 then { json with b := some v } else json | none => json
       match decO (α := α) row.rf with | some v => if ne v 0 then { json with rf := some v } else json | none => json
     else json
-  let json := if !gNaN json.rf && gNaN json.b then
-      { json with b := some ((1.0 - 1.0 / gnum json.rf) * gnum json.a) } else json
-  let json := if eq (gnum json.rf) 0 || lt (abs (gnum json.a - gnum json.b)) c_epsln then
-      { json with sphere := true, b := json.a } else json
-  let a := gnum json.a
-  let b := gnum json.b
-  let a2 := a * a
-  let b2 := b * b
-  let es := (a2 - b2) / a2
-  let e := sqrt es
-  let json := { json with a2 := a2, b2 := b2, es := es, e := e }
-  let json := if json.ra then
-      let a := a * (1 - es * (c_sixth + es * (c_ra4 + es * c_ra6)))
-      { json with a := some a, a2 := a * a, b2 := b * b, es := 0 }
-    else json
-  let json := { json with ep2 := (json.a2 - json.b2) / json.b2 }
-  let json := if gNaN json.k0 then { json with k0 := some 1.0 } else json
+  -- the arithmetic between the table lookups and the axis default: REGENERATED (`Gen.Go.DeriveConstants_core1`)
+  let r := DeriveConstants_core1 (α := α)
+    { A := json.a, A2 := json.a2, B := json.b, B2 := json.b2, E := json.e, Ep2 := json.ep2, Es := json.es,
+      K0 := json.k0, Ra := json.ra, Rf := json.rf, sphere := json.sphere }
+  let json := { json with a := r.A, a2 := r.A2, b := r.B, b2 := r.B2, e := r.E, ep2 := r.Ep2, es := r.Es,
+                          k0 := r.K0, ra := r.Ra, rf := r.Rf, sphere := r.sphere }
   let json := if json.axis == "" then { json with axis := "enu" } else json
   if json.datum.isNone then
     let (d, ps) := getDatum json
